@@ -173,6 +173,9 @@ pub struct TableDef {
     pub cols: Vec<Col>,
     /// Index of the primary-key column, if any.
     pub pk: Option<usize>,
+    /// The key is declared as a table constraint `PRIMARY KEY (c)` instead of on the column.
+    #[serde(default)]
+    pub pk_constraint: bool,
 }
 
 impl TableDef {
@@ -183,11 +186,14 @@ impl TableDef {
                 s.push_str(", ");
             }
             let _ = write!(s, "{} {}", c.name, c.ty.sql());
-            if self.pk == Some(i) {
+            if self.pk == Some(i) && !self.pk_constraint {
                 s.push_str(" PRIMARY KEY");
             } else if !c.nullable {
                 s.push_str(" NOT NULL");
             }
+        }
+        if let (Some(k), true) = (self.pk, self.pk_constraint) {
+            let _ = write!(s, ", PRIMARY KEY ({})", self.cols[k].name);
         }
         s.push(')');
         s
